@@ -165,6 +165,8 @@ def _run_one(perms, mode, shape, seed, fail, outcome):
     alpha = _alphabet(mode, n, inv, seed)
     acc_sets = [_acceptable(v, allowed) for v in alpha]
     evals, nontriv = 0, 0
+    # failing-input class for the signature: in the inverse mode the relation of the array depth to the number of materials
+    cls = "" if not inverse else (":depth=1" if shape[2] == 1 else ":depth=n" if shape[2] == n else ":depth!=n")
     L = len(alpha)
     A = np.zeros((L, n), dtype=bool)  # A[value, index] = index acceptable for value
     for i, (ok_set, _) in enumerate(acc_sets):
@@ -187,15 +189,15 @@ def _run_one(perms, mode, shape, seed, fail, outcome):
             out0, vjp0 = jax.vjp(f, jnp.asarray(X[0]))
             out0 = np.asarray(out0)
         except (ValueError, TypeError) as e:
-            fail(f"{mode}:call-raises:{type(e).__name__}", dict(base, x=X[0].ravel().tolist(), error=str(e)[:300]))
+            fail(f"{mode}:call-raises:{type(e).__name__}{cls}", dict(base, x=X[0].ravel().tolist(), error=str(e)[:300]))
             continue
         if out0.shape != shape:
-            fail(f"{mode}:shape-changed", dict(base, x=X[0].ravel().tolist(), got_shape=list(out0.shape)))
+            fail(f"{mode}:shape-changed{cls}", dict(base, x=X[0].ravel().tolist(), got_shape=list(out0.shape)))
             continue
         J = np.asarray(jax.vmap(lambda e: vjp0(e)[0])(jnp.eye(ncell).reshape((ncell, *shape)))).reshape(ncell, ncell)
         evals += 1
         if not np.array_equal(J, np.eye(ncell)):
-            fail(f"{mode}:jacobian-not-identity", dict(base, x=X[0].ravel().tolist(), max_dev=float(np.max(np.abs(J - np.eye(ncell))))))
+            fail(f"{mode}:jacobian-not-identity{cls}", dict(base, x=X[0].ravel().tolist(), max_dev=float(np.max(np.abs(J - np.eye(ncell))))))
         # (2) all rotations in one vmapped batch (same Python code per element), value + straight-through gradient
         W = 1.0 + (np.arange(L * ncell, dtype=np.float64).reshape((L, *shape)) % 97) / 7.0
         OUT, vjp = jax.vjp(jax.vmap(f), jnp.asarray(X))
@@ -214,9 +216,9 @@ def _run_one(perms, mode, shape, seed, fail, outcome):
         if not good.all():
             r, j = [int(v) for v in np.argwhere(~good)[0]]
             allzero = bool(np.all(flat[r] == 0))
-            sig = f"{mode}:all-index-0" if (allzero and nt[r]) else f"{mode}:wrong-index"
+            sig = f"{mode}:all-index-0{cls}" if (allzero and nt[r]) else f"{mode}:wrong-index{cls}"
             fail(sig, dict(base, rotation=r, x=X[r].ravel().tolist(), cell=j, x_cell=float(X[r].ravel()[j]), got=float(flat[r, j]), acceptable=np.nonzero(A[ids[r, j]])[0].tolist(), allowed=allowed, n_bad=int((~good).sum())))
         if not np.array_equal(np.asarray(G), W):
             bad = np.argwhere(np.asarray(G) != W)[0]
-            fail(f"{mode}:gradient-not-passed-through", dict(base, rotation=int(bad[0]), x_cell=float(X[tuple(bad)]), got=float(np.asarray(G)[tuple(bad)]), want=float(W[tuple(bad)])))
+            fail(f"{mode}:gradient-not-passed-through{cls}", dict(base, rotation=int(bad[0]), x_cell=float(X[tuple(bad)]), got=float(np.asarray(G)[tuple(bad)]), want=float(W[tuple(bad)])))
     return evals, nontriv
